@@ -68,6 +68,101 @@ Definition rot_check (r : int * int * (list int * list int * list int) * list (i
     end in
   if same m evs then 0%nat else 1%nat.
 
+(* ---- modelled triggers: the decision must equal the model's decision on the probed state ---- *)
+
+Definition mk_sow_env (tagidx : int) (temps : list float)
+  (f : float * float * float * float * float * float * float * float * float * float * float * float * float * (float * float)) : sow_env float :=
+  let '(tagnum, window, temp, tjahrsum, tjahr, tslmin, tslmax, wg00, regen, regen_prev, dz, wmin0, wnor0, moi) := f in
+  {| se_tagnum := tagnum; se_tagidx := zi tagidx; se_window := window; se_temps := temps; se_temp := temp;
+     se_tjahrsum := tjahrsum; se_tjahr := tjahr; se_tslmin := tslmin; se_tslmax := tslmax; se_wg00 := wg00;
+     se_regen := regen; se_regen_prev := regen_prev; se_dz := dz; se_wmin0 := wmin0; se_wnor0 := wnor0;
+     se_minmoi := fst moi; se_maxmoi := snd moi |}.
+
+(* z, SAAT before, SAAT1, SAAT2, ERNTE[k-1], SAAT after, state of the day *)
+Definition sow_check2 (r : (int * int * int * int * int * int) * sow_env float) : nat :=
+  let '((z, sb, s1, s2, pe, sa), e) := r in
+  if auto_sow (zi z) (zi sb) (zi s1) (zi s2) (zi pe) (sow_cond e) =? zi sa then 0%nat else 1%nat.
+
+Definition mk_harv_env (num nrentw : int)
+  (f : float * float * float * float * float * float * float * float * float * float)
+  (h : float * float * float * float * float * float * float * float) : harv_env float :=
+  let '(sum0, tsum0, sm, tsm, tsn, wg00, regen, dz, wmin0, wnor0) := f in
+  let '(minh, maxh, tagnum, r1, r2, r3, rainlim, rainact) := h in
+  {| he_sum0 := sum0; he_tsum0 := tsum0; he_num := zi num; he_nrentw := zi nrentw; he_sum := sm; he_tsum := tsm;
+     he_tsum_next := tsn; he_wg00 := wg00; he_regen := regen; he_dz := dz; he_wmin0 := wmin0; he_wnor0 := wnor0;
+     he_minhmoi := minh; he_maxhmoi := maxh; he_tagnum := tagnum; he_r1 := r1; he_r2 := r2; he_r3 := r3;
+     he_rainlim := rainlim; he_rainact := rainact |}.
+
+(* harvest decision with the modelled condition (records of days on which PhytoOut ran with ERNTE = 0 and the crop
+   beyond its first stage): 1 = (ERNTE, ERNTE2) differ, 4 = next entry's sowing date rule *)
+Definition hdec_check2 (r : (int * (int * int * int * int) * (int * int * int * int)) * harv_env float) : nat :=
+  let '((z, (e0, e20, e1, e21), (n0, n20, n1, n21)), env) := r in
+  let z := zi z in
+  let after := (zi e1, zi e21) in
+  let nb := (zi n0, zi n20) in let na := (zi n1, zi n21) in
+  let okE := pair_eqb (auto_harvest z (zi e0) (zi e20) (harvest_cond env)) after in
+  let decided := (zi e0 =? 0) && negb (zi e1 =? 0) in
+  let okN :=
+    if decided then
+      if zi e1 =? z then pair_eqb na (move_next_sowing z z (zi n0) (zi n20))
+      else pair_eqb na nb || pair_eqb na (move_next_sowing z (z + 1) (zi n0) (zi n20))
+    else pair_eqb na nb in
+  ((if okE then 0 else 1) + (if okN then 0 else 4))%nat.
+
+Fixpoint zip3 (a b c : list float) : list (float * float * float) :=
+  match a, b, c with
+  | x :: a', y :: b', z :: c' => (x, y, z) :: zip3 a' b' c'
+  | _, _, _ => []
+  end.
+
+(* automatic irrigation on the probed state: fired? and amount *)
+Definition airr_check2 (r : (int * int * int * bool) * (float * float * float * float * float * float * float * float * float * float)
+                           * (list float * list float * list float) * float) : nat :=
+  let '((z, saat, wurzmax, fired), (intw, s1, s2, imax, ilow, idep, regen, dz, rain1, rain2), (wg0, w, wmin), amount) := r in
+  let e := {| ie_layers := zip3 wg0 w wmin; ie_wurzmax := zi wurzmax; ie_irrdep := idep; ie_regen := regen; ie_dz := dz;
+              ie_irrlow := ilow; ie_rain1 := rain1; ie_rain2 := rain2 |} in
+  match auto_irr_state (zi z) (zi saat) intw s1 s2 imax e with
+  | Some a => if fired then (if float_same a amount then 0%nat else 2%nat) else 1%nat
+  | None => if fired then 1%nat else 0%nat
+  end.
+
+(* one automatic-fertilisation call: 1 = DSUMM, 2 = NFERTSIM, 4 = NDOY1..3, 8 = ZTDG[AKF], 16 = which organic application fired *)
+Definition mk_pay (l : list float) : org_pay float :=
+  {| o_nsas := nth 0 l PrimFloat.zero; o_nlas := nth 1 l PrimFloat.zero; o_ndir := nth 2 l PrimFloat.zero |}.
+
+Definition af_check (r : (int * int * int * int) * (bool * int * bool * int * int) * (float * float * float * float * float)
+                         * (list float * list float * list float * list float) * (list float * list float * list float)
+                         * (list float * int * bool * bool)) : nat :=
+  let '((z, akf, saat, wurz), (prev_h, ztdg_prev, cur_s, orgdoy, ztdg), (intw, tagnum, regen, regen_prev, regen_next),
+        (t5, c1, ndem, ndoy), (pay_prev, pay_cur, pools), (post, ztdg_post, h_fire, s_fire)) := r in
+  let g l i := nth i l PrimFloat.zero in
+  let e := {| ae_z := zi z; ae_akf := zi akf; ae_saat := zi saat; ae_intwick := intw; ae_tagnum := tagnum; ae_t5 := t5;
+              ae_regen := regen; ae_regen_prev := regen_prev; ae_regen_next := regen_next; ae_c1 := c1; ae_wurz := zi wurz;
+              ae_ndem1 := g ndem 0%nat; ae_ndem2 := g ndem 1%nat; ae_ndem3 := g ndem 2%nat;
+              ae_prev_h := prev_h; ae_ztdg_prev := zi ztdg_prev; ae_pay_prev := mk_pay pay_prev;
+              ae_cur_s := cur_s; ae_orgdoy := zi orgdoy; ae_pay_cur := mk_pay pay_cur |} in
+  let s := {| as_ndoy1 := g ndoy 0%nat; as_ndoy2 := g ndoy 1%nat; as_ndoy3 := g ndoy 2%nat; as_ztdg := zi ztdg;
+              as_nfos0 := g pools 0%nat; as_naos0 := g pools 1%nat; as_dsumm := g pools 2%nat; as_c10 := g pools 3%nat;
+              as_nfertsim := g pools 4%nat |} in
+  let '(s', ev) := autofert_day e s in
+  let has k := existsb (fun x => fst x =? k) ev in
+  let b (ok : bool) (v : nat) := if ok then 0%nat else v in
+  let c1 := float_same (as_dsumm s') (g post 0%nat) in
+  let c2 := float_same (as_nfertsim s') (g post 1%nat) in
+  let c4 := float_same (as_ndoy1 s') (g post 2%nat) && float_same (as_ndoy2 s') (g post 3%nat) && float_same (as_ndoy3 s') (g post 4%nat) in
+  let c8 := as_ztdg s' =? zi ztdg_post in
+  let c16 := Bool.eqb (has 0) h_fire && Bool.eqb (has 1) s_fire in
+  (b c1 1 + b c2 2 + b c4 4 + b c8 8 + b c16 16)%nat.
+
+(* harvest: cursor advance, ZTDG[k], skip: z, k, org_h k, ORGDOY[k], SAAT2[k+1], AUTOMAN, ZTDG[k] before; observed advance, ZTDG[k] after, EINTE[NTIL+1] after *)
+Definition hcur_check (r : (int * int * bool * int * int * bool * int) * (int * int * int)) : nat :=
+  let '((z, k, orgh, orgdoy, s2n, automan, zt), (adv, zt', einte)) := r in
+  let '(k', ztm, skipped) := harvest_cursor (zi z) (zi k) (fun _ => orgh) (fun _ => zi orgdoy) (fun _ => zi s2n) automan (zi zt) in
+  let c1 := k' - zi k =? zi adv in
+  let c2 := ztm =? zi zt' in
+  let c4 := negb skipped || (zi einte =? zi z + 1) in
+  ((if c1 then 0 else 1) + (if c2 then 0 else 2) + (if c4 then 0 else 4))%nat.
+
 Fixpoint mismatches {A} (chk : A -> nat) (i : nat) (l : list A) : list (nat * nat) :=
   match l with
   | [] => []
